@@ -420,6 +420,9 @@ func (db *PgDB) ServeMySQL(conn io.ReadWriter) error {
 				continue
 			}
 			id := binary.LittleEndian.Uint32(body)
+			if id == 0xffffffff {
+				id = nextID - 1 // MariaDB: the last statement prepared on this connection
+			}
 			st := stmts[id]
 			if st == nil {
 				if err := c.err(1243, "HY000", "Unknown prepared statement handler"); err != nil {
